@@ -14,7 +14,7 @@ from tranpsim.proc import sim_process
 CACHE = '.cache/tranp'
 
 WRITE_FAULTS = ('crash@write', 'crash@write+zeros', 'enospc@write')
-FAULT_KINDS = ('crash@open', 'crash@write', 'crash@write+zeros', 'crash@after-unlink', 'crash@between-files', 'enospc@write', 'eacces@unlink')
+FAULT_KINDS = ('crash@open', 'crash@write', 'crash@write+zeros', 'crash@after-unlink', 'crash@between-files', 'enospc@write', 'eacces@unlink', 'eacces@open')
 
 
 # ---------------------------------------------------------------------------------------------
